@@ -461,10 +461,11 @@ def brute_language(rules, V, S, alg, max_len, max_depth):
     return trees(S, max_depth)
 
 
-def cyclic_symbols(rules, V):
+def cyclic_symbols(rules, V, productive_only=True):
     """Nonterminals X with X =>+ X through productive symbols (some string then
-    has infinitely many derivations)."""
-    P = productive(rules, V)
+    has infinitely many derivations).  productive_only=False also reports
+    cycles through useless symbols (the library's closures still meet them)."""
+    P = productive(rules, V) if productive_only else set(nonterminals(rules, V))
     nullable = set()
     changed = True
     while changed:
